@@ -16,6 +16,7 @@ Part 3: spec parsing: unknown names and out-of-range indices raise; different sp
         same signals parse to the same `(subsystem, indices, gain)` and therefore to the same maps.
 -/
 import CtrlVerif.Lemmas.Interconnect
+import CtrlVerif.Lemmas.ICOps
 import CtrlVerif.Props.C02
 import Mathlib.Algebra.Field.Rat
 import Mathlib.LinearAlgebra.Matrix.Notation
@@ -575,6 +576,299 @@ theorem implicit_eq_explicit (sigs : List SysSig) :
 
 end parse
 
+/-! ## Part 4 — operator forms on I/O systems (`+`, `-`, `*`, unary `-`, `feedback`)
+
+`NonlinearIOSystem.__add__` … `feedback` build an `InterconnectedSystem` from index-tuple lists
+(`opParallel`, `opSeries`, `opNeg`, `opFeedback` in the model evaluate exactly those lists with
+`buildMaps`).  For operands of any sizes: incompatible sizes raise; otherwise the three maps have
+the closed forms below (in particular the sum has as many outputs as the operands — not as many
+as they have inputs), and these maps *are* the parallel / series / negation / feedback wirings of
+Part 2, so that for linear operands the result is C02's `add` / `mul` / `neg` / `feedback`. -/
+
+section operators
+
+variable {K : Type} [Field K] [DecidableEq K]
+
+/-- `sys1 + sys2`, `sys1 - sys2` with different numbers of inputs or of outputs raise. -/
+theorem opParallel_shape_raises (S₁ S₂ : SysSig) (g : Option K)
+    (h : S₁.nin ≠ S₂.nin ∨ S₁.nout ≠ S₂.nout) : opParallel S₁ S₂ g = .error .shape := by
+  simp [opParallel, h]
+
+/-- `sys2 * sys1` raises unless `sys1` has as many outputs as `sys2` has inputs. -/
+theorem opSeries_shape_raises (S₁ S₂ : SysSig) (h : S₁.nout ≠ S₂.nin) :
+    opSeries (K := K) S₁ S₂ = .error .shape := by
+  simp [opSeries, h]
+
+/-- `sys1.feedback(sys2)` raises unless the two fit head to tail both ways. -/
+theorem opFeedback_shape_raises (S₁ S₂ : SysSig) (sign : K)
+    (h : S₁.nout ≠ S₂.nin ∨ S₂.nout ≠ S₁.nin) : opFeedback S₁ S₂ sign = .error .shape := by
+  simp [opFeedback, h]
+
+/-- the maps of `sys1 + sys2` (`g = none`) and `sys1 - sys2` (`g = some (-1)`) for operands with
+`m` inputs and `p` outputs, any `m`, `p`: `m` inputs, **`p` outputs**, no connections, input `i`
+to input `i` of both, output `i` = output `i` of the first + `g` × output `i` of the second. -/
+theorem opParallel_maps (S₁ S₂ : SysSig) (m p : Nat) (h1 : S₁.nin = m) (h2 : S₂.nin = m)
+    (h3 : S₁.nout = p) (h4 : S₂.nout = p) (g : Option K) :
+    opParallel S₁ S₂ g = .ok ⟨m + m, p + p, m, p, [], parInp m, parOut p (g.getD 1)⟩ :=
+  opParallel_ok S₁ S₂ m p h1 h2 h3 h4 g
+
+/-- the maps of the series form (`S₁ : m → q` first, then `S₂ : q → p`). -/
+theorem opSeries_maps (S₁ S₂ : SysSig) (m q p : Nat) (h1 : S₁.nin = m) (h2 : S₁.nout = q)
+    (h3 : S₂.nin = q) (h4 : S₂.nout = p) :
+    opSeries (K := K) S₁ S₂ = .ok ⟨m + q, q + p, m, p, eyeEntries m 0 q 1, eyeEntries 0 0 m 1,
+      eyeEntries 0 q p 1⟩ :=
+  opSeries_ok S₁ S₂ m q p h1 h2 h3 h4
+
+/-- the maps of `-sys`. -/
+theorem opNeg_maps (S : SysSig) (m p : Nat) (h1 : S.nin = m) (h3 : S.nout = p) :
+    opNeg (K := K) S = .ok ⟨m, p, m, p, [], eyeEntries 0 0 m 1, eyeEntries 0 0 p (-1)⟩ :=
+  opNeg_ok S m p h1 h3
+
+/-- the maps of `sys1.feedback(sys2, sign)` (`S₁ : m → p`, `S₂ : p → m`). -/
+theorem opFeedback_maps (S₁ S₂ : SysSig) (m p : Nat) (sign : K) (h1 : S₁.nin = m)
+    (h2 : S₁.nout = p) (h3 : S₂.nin = p) (h4 : S₂.nout = m) :
+    opFeedback S₁ S₂ sign = .ok ⟨m + p, p + m, m, p,
+      eyeEntries 0 p m sign ++ eyeEntries m 0 p 1, eyeEntries 0 0 m 1, eyeEntries 0 0 p 1⟩ :=
+  opFeedback_ok S₁ S₂ m p sign h1 h2 h3 h4
+
+/-- `Maps.wiring` of a literal is `wiringOf` of its fields (the form the next theorems use). -/
+theorem wiring_mk (nu ny nin nout : Nat) (c i o : List (Entry K)) :
+    (⟨nu, ny, nin, nout, c, i, o⟩ : Maps K).wiring = wiringOf nu ny nin nout c i o := rfl
+
+/-- the maps of `sys1 + g sys2`, with the stacked signals split back into the two subsystems,
+are the parallel wiring. -/
+theorem par_wiring (m p : Nat) (g : K) :
+    (wiringOf (m + m) (p + p) m p [] (parInp m) (parOut p g)).reindex
+        finSumFinEquiv finSumFinEquiv (Equiv.refl _) (Equiv.refl _)
+      = Wiring.parallelGain (ι := Fin m) (o := Fin p) g := by
+  apply Wiring.ext'
+  · simp [Wiring.reindex, wiringOf, Wiring.parallelGain, toMat_nil]
+  · ext i j
+    have hj := j.isLt
+    simp only [Wiring.reindex, wiringOf, Wiring.parallelGain, submatrix_apply]
+    rcases i with a | a
+    · have ha := a.isLt
+      rw [toMat_parInp, Matrix.add_apply,
+        toMat_eye_val _ _ _ _ _ _ _ _ a.val j.val (by fin_val) (by fin_val),
+        toMat_eye_val _ _ _ _ _ _ _ _ a.val j.val (by fin_val) (by fin_val),
+        if_neg (by omega : ¬ (m ≤ a.val ∧ a.val < m + m ∧ j.val + m = 0 + a.val)), add_zero,
+        fromRows_apply_inl, Matrix.one_apply]
+      exact if_congr (by rw [Fin.ext_iff]; omega) rfl rfl
+    · have ha := a.isLt
+      rw [toMat_parInp, Matrix.add_apply,
+        toMat_eye_val _ _ _ _ _ _ _ _ (m + a.val) j.val (by fin_val) (by fin_val),
+        toMat_eye_val _ _ _ _ _ _ _ _ (m + a.val) j.val (by fin_val) (by fin_val),
+        if_neg (by omega : ¬ (0 ≤ m + a.val ∧ m + a.val < 0 + m ∧ j.val + 0 = 0 + (m + a.val))), zero_add,
+        fromRows_apply_inr, Matrix.one_apply]
+      exact if_congr (by rw [Fin.ext_iff]; omega) rfl rfl
+  · ext i j
+    have hi := i.isLt
+    simp only [Wiring.reindex, wiringOf, Wiring.parallelGain, Matrix.submatrix, Matrix.of_apply]
+    rcases j with b | b
+    · have hb := b.isLt
+      rw [toMat_parOut, Matrix.add_apply,
+        toMat_eye_val _ _ _ _ _ _ _ _ i.val b.val (by fin_val) (by fin_val),
+        toMat_eye_val _ _ _ _ _ _ _ _ i.val b.val (by fin_val) (by fin_val),
+        if_neg (by omega : ¬ (0 ≤ i.val ∧ i.val < 0 + p ∧ b.val + 0 = p + i.val)), add_zero,
+        fromCols_apply_inl, Matrix.one_apply]
+      exact if_congr (by rw [Fin.ext_iff]; omega) rfl rfl
+    · have hb := b.isLt
+      rw [toMat_parOut, Matrix.add_apply,
+        toMat_eye_val _ _ _ _ _ _ _ _ i.val (p + b.val) (by fin_val) (by fin_val),
+        toMat_eye_val _ _ _ _ _ _ _ _ i.val (p + b.val) (by fin_val) (by fin_val),
+        if_neg (by omega : ¬ (0 ≤ i.val ∧ i.val < 0 + p ∧ p + b.val + 0 = 0 + i.val)), zero_add,
+        fromCols_apply_inr, Matrix.smul_apply, Matrix.one_apply, smul_eq_mul, mul_ite, mul_one, mul_zero]
+      exact if_congr (by rw [Fin.ext_iff]; omega) rfl rfl
+  · ext i j
+    have hi := i.isLt
+    simp only [Wiring.reindex, wiringOf, Wiring.parallelGain, Matrix.submatrix, Matrix.of_apply]
+    rw [toMat_parOut, Matrix.add_apply,
+      toMat_eye_val _ _ _ _ _ _ _ _ i.val (p + p + (finSumFinEquiv j).val) (by fin_val) (by fin_val),
+      toMat_eye_val _ _ _ _ _ _ _ _ i.val (p + p + (finSumFinEquiv j).val) (by fin_val) (by fin_val),
+      if_neg (by omega), if_neg (by omega)]
+    simp
+/-- the maps of the series form are the series wiring. -/
+theorem series_wiring (m q p : Nat) :
+    (wiringOf (K := K) (m + q) (q + p) m p (eyeEntries m 0 q 1) (eyeEntries 0 0 m 1)
+        (eyeEntries 0 q p 1)).reindex finSumFinEquiv finSumFinEquiv (Equiv.refl _) (Equiv.refl _)
+      = Wiring.series (ι₁ := Fin m) (o₁ := Fin q) (o₂ := Fin p) := by
+  apply Wiring.ext'
+  · ext i j
+    simp only [Wiring.reindex, wiringOf, Wiring.series, Matrix.submatrix, Matrix.of_apply]
+    rcases i with a | a <;> rcases j with b | b <;> have ha := a.isLt <;> have hb := b.isLt
+    · rw [toMat_eye_val _ _ _ _ _ _ _ _ a.val b.val (by fin_val) (by fin_val), fromBlocks_apply₁₁, Matrix.zero_apply]
+      eye_close
+    · rw [toMat_eye_val _ _ _ _ _ _ _ _ a.val (q + b.val) (by fin_val) (by fin_val), fromBlocks_apply₁₂,
+        Matrix.zero_apply]
+      eye_close
+    · rw [toMat_eye_val _ _ _ _ _ _ _ _ (m + a.val) b.val (by fin_val) (by fin_val), fromBlocks_apply₂₁,
+        Matrix.one_apply]
+      eye_close
+    · rw [toMat_eye_val _ _ _ _ _ _ _ _ (m + a.val) (q + b.val) (by fin_val) (by fin_val),
+        fromBlocks_apply₂₂, Matrix.zero_apply]
+      eye_close
+  · ext i j
+    have hj := j.isLt
+    simp only [Wiring.reindex, wiringOf, Wiring.series, Matrix.submatrix, Matrix.of_apply]
+    rcases i with a | a <;> have ha := a.isLt
+    · rw [toMat_eye_val _ _ _ _ _ _ _ _ a.val j.val (by fin_val) (by fin_val), fromRows_apply_inl, Matrix.one_apply]
+      eye_close
+    · rw [toMat_eye_val _ _ _ _ _ _ _ _ (m + a.val) j.val (by fin_val) (by fin_val), fromRows_apply_inr,
+        Matrix.zero_apply]
+      eye_close
+  · ext i j
+    have hi := i.isLt
+    simp only [Wiring.reindex, wiringOf, Wiring.series, Matrix.submatrix, Matrix.of_apply]
+    rcases j with b | b <;> have hb := b.isLt
+    · rw [toMat_eye_val _ _ _ _ _ _ _ _ i.val b.val (by fin_val) (by fin_val), fromCols_apply_inl, Matrix.zero_apply]
+      eye_close
+    · rw [toMat_eye_val _ _ _ _ _ _ _ _ i.val (q + b.val) (by fin_val) (by fin_val), fromCols_apply_inr,
+        Matrix.one_apply]
+      eye_close
+  · ext i j
+    have hi := i.isLt
+    simp only [Wiring.reindex, wiringOf, Wiring.series, Matrix.submatrix, Matrix.of_apply]
+    rw [toMat_eye_val _ _ _ _ _ _ _ _ i.val (q + p + (finSumFinEquiv j).val) (by fin_val) (by fin_val), Matrix.zero_apply]
+    eye_close
+/-- the maps of `-sys` are the negation wiring. -/
+theorem neg_wiring (m p : Nat) :
+    wiringOf (K := K) m p m p [] (eyeEntries 0 0 m 1) (eyeEntries 0 0 p (-1))
+      = Wiring.negate (ι := Fin m) (o := Fin p) := by
+  apply Wiring.ext'
+  · simp [wiringOf, Wiring.negate, toMat_nil]
+  · ext i j
+    have hi := i.isLt
+    have hj := j.isLt
+    simp only [wiringOf, Wiring.negate]
+    rw [toMat_eye_val _ _ _ _ _ _ _ _ i.val j.val rfl rfl, Matrix.one_apply]
+    eye_close
+  · ext i j
+    have hi := i.isLt
+    have hj := j.isLt
+    simp only [wiringOf, Wiring.negate]
+    rw [toMat_eye_val _ _ _ _ _ _ _ _ i.val j.val rfl (by fin_val), Matrix.neg_apply, Matrix.one_apply,
+      apply_ite Neg.neg, neg_zero]
+    eye_close
+  · ext i j
+    have hi := i.isLt
+    simp only [wiringOf, Wiring.negate]
+    rw [toMat_eye_val _ _ _ _ _ _ _ _ i.val (p + j.val) rfl (by fin_val), Matrix.zero_apply]
+    eye_close
+/-- the maps of `sys1.feedback(sys2, sign)` are the feedback wiring. -/
+theorem feedback_wiring (m p : Nat) (sign : K) :
+    (wiringOf (m + p) (p + m) m p (eyeEntries 0 p m sign ++ eyeEntries m 0 p 1) (eyeEntries 0 0 m 1)
+        (eyeEntries 0 0 p 1)).reindex finSumFinEquiv finSumFinEquiv (Equiv.refl _) (Equiv.refl _)
+      = Wiring.feedback (ι := Fin m) (o := Fin p) sign := by
+  apply Wiring.ext'
+  · ext i j
+    simp only [Wiring.reindex, wiringOf, Wiring.feedback, Matrix.submatrix, Matrix.of_apply]
+    rw [toMat_append', Matrix.add_apply]
+    rcases i with a | a <;> rcases j with b | b <;> have ha := a.isLt <;> have hb := b.isLt
+    · rw [toMat_eye_val _ _ _ _ _ _ _ _ a.val b.val (by fin_val) (by fin_val),
+        toMat_eye_val _ _ _ _ _ _ _ _ a.val b.val (by fin_val) (by fin_val), fromBlocks_apply₁₁,
+        Matrix.zero_apply, if_neg (by omega), if_neg (by omega), add_zero]
+    · rw [toMat_eye_val _ _ _ _ _ _ _ _ a.val (p + b.val) (by fin_val) (by fin_val),
+        toMat_eye_val _ _ _ _ _ _ _ _ a.val (p + b.val) (by fin_val) (by fin_val), fromBlocks_apply₁₂,
+        if_neg (by omega : ¬ (m ≤ a.val ∧ a.val < m + p ∧ p + b.val + m = 0 + a.val)), add_zero,
+        Matrix.smul_apply, Matrix.one_apply, smul_eq_mul, mul_ite, mul_one, mul_zero]
+      eye_close
+    · rw [toMat_eye_val _ _ _ _ _ _ _ _ (m + a.val) b.val (by fin_val) (by fin_val),
+        toMat_eye_val _ _ _ _ _ _ _ _ (m + a.val) b.val (by fin_val) (by fin_val), fromBlocks_apply₂₁,
+        if_neg (by omega : ¬ (0 ≤ m + a.val ∧ m + a.val < 0 + m ∧ b.val + 0 = p + (m + a.val))), zero_add,
+        Matrix.one_apply]
+      eye_close
+    · rw [toMat_eye_val _ _ _ _ _ _ _ _ (m + a.val) (p + b.val) (by fin_val) (by fin_val),
+        toMat_eye_val _ _ _ _ _ _ _ _ (m + a.val) (p + b.val) (by fin_val) (by fin_val), fromBlocks_apply₂₂,
+        Matrix.zero_apply, if_neg (by omega), if_neg (by omega), add_zero]
+  · ext i j
+    have hj := j.isLt
+    simp only [Wiring.reindex, wiringOf, Wiring.feedback, Matrix.submatrix, Matrix.of_apply]
+    rcases i with a | a <;> have ha := a.isLt
+    · rw [toMat_eye_val _ _ _ _ _ _ _ _ a.val j.val (by fin_val) (by fin_val), fromRows_apply_inl,
+        Matrix.one_apply]
+      eye_close
+    · rw [toMat_eye_val _ _ _ _ _ _ _ _ (m + a.val) j.val (by fin_val) (by fin_val), fromRows_apply_inr,
+        Matrix.zero_apply]
+      eye_close
+  · ext i j
+    have hi := i.isLt
+    simp only [Wiring.reindex, wiringOf, Wiring.feedback, Matrix.submatrix, Matrix.of_apply]
+    rcases j with b | b <;> have hb := b.isLt
+    · rw [toMat_eye_val _ _ _ _ _ _ _ _ i.val b.val (by fin_val) (by fin_val), fromCols_apply_inl,
+        Matrix.one_apply]
+      eye_close
+    · rw [toMat_eye_val _ _ _ _ _ _ _ _ i.val (p + b.val) (by fin_val) (by fin_val), fromCols_apply_inr,
+        Matrix.zero_apply]
+      eye_close
+  · ext i j
+    have hi := i.isLt
+    simp only [Wiring.reindex, wiringOf, Wiring.feedback, Matrix.submatrix, Matrix.of_apply]
+    rw [toMat_eye_val _ _ _ _ _ _ _ _ i.val (p + m + (finSumFinEquiv j).val) (by fin_val) (by fin_val),
+      Matrix.zero_apply]
+    eye_close
+theorem parallelGain_one {ι o : Type*} [DecidableEq ι] [DecidableEq o] :
+    Wiring.parallelGain (K := K) (ι := ι) (o := o) 1 = Wiring.parallel := by
+  simp [Wiring.parallelGain, Wiring.parallel]
+
+variable {σ σ₁ σ₂ : Type*}
+
+/-- `sys1 + sys2` on linear operands is `StateSpace.__add__` (C02's `add`). -/
+theorem opAdd_linear (m p : Nat) (G₁ : SS σ₁ (Fin m) (Fin p) K) (G₂ : SS σ₂ (Fin m) (Fin p) K) :
+    ((wiringOf (m + m) (p + p) m p [] (parInp m) (parOut p 1)).reindex
+        finSumFinEquiv finSumFinEquiv (Equiv.refl _) (Equiv.refl _)).linearIC (G₁.append G₂) 1
+      = G₁.add G₂ := by
+  rw [par_wiring, parallelGain_one]
+  exact linearIC_parallel G₁ G₂
+
+/-- the difference wiring on linear operands is `G₁ + (-G₂)`. -/
+theorem linearIC_parallelNeg {ι o : Type*} [Fintype ι] [DecidableEq ι] [Fintype o] [DecidableEq o]
+    (G₁ : SS σ₁ ι o K) (G₂ : SS σ₂ ι o K) :
+    (Wiring.parallelGain (K := K) (-1)).linearIC (G₁.append G₂) 1 = G₁.add G₂.neg := by
+  simp only [Wiring.linearIC, SS.append, SS.add, SS.neg, Wiring.parallelGain]
+  congr 1
+  · simp
+  · simp [fromBlocks_mul_fromRows]
+  · simp [fromCols_mul_fromBlocks]
+  · simp [fromCols_mul_fromBlocks, fromCols_mul_fromRows, sub_eq_add_neg]
+
+/-- `sys1 - sys2` on linear operands is `sys1 + (-sys2)`. -/
+theorem opSub_linear (m p : Nat) (G₁ : SS σ₁ (Fin m) (Fin p) K) (G₂ : SS σ₂ (Fin m) (Fin p) K) :
+    ((wiringOf (m + m) (p + p) m p [] (parInp m) (parOut p (-1))).reindex
+        finSumFinEquiv finSumFinEquiv (Equiv.refl _) (Equiv.refl _)).linearIC (G₁.append G₂) 1
+      = G₁.add G₂.neg := by
+  rw [par_wiring]
+  exact linearIC_parallelNeg G₁ G₂
+
+/-- `sys2 * sys1` on linear operands is `StateSpace.__mul__` (C02's `mul`). -/
+theorem opSeries_linear (m q p : Nat) (G₁ : SS σ₁ (Fin m) (Fin q) K) (G₂ : SS σ₂ (Fin q) (Fin p) K) :
+    ((wiringOf (K := K) (m + q) (q + p) m p (eyeEntries m 0 q 1) (eyeEntries 0 0 m 1)
+        (eyeEntries 0 q p 1)).reindex finSumFinEquiv finSumFinEquiv (Equiv.refl _)
+        (Equiv.refl _)).linearIC (G₁.append G₂) (fromBlocks 1 0 G₁.D 1)
+      = G₂.mul G₁ := by
+  rw [series_wiring]
+  exact linearIC_series G₁ G₂
+
+/-- `-sys` on a linear operand is `StateSpace.__neg__`. -/
+theorem opNeg_linear (m p : Nat) (G : SS σ (Fin m) (Fin p) K) :
+    (wiringOf (K := K) m p m p [] (eyeEntries 0 0 m 1) (eyeEntries 0 0 p (-1))).linearIC G 1
+      = G.neg := by
+  rw [neg_wiring]
+  simp [Wiring.linearIC, Wiring.negate, SS.neg]
+
+/-- `sys1.feedback(sys2, sign)` on linear operands is `StateSpace.feedback` (well-posed loop,
+`E = (I - sign D₂ D₁)⁻¹`). -/
+theorem opFeedback_linear (m p : Nat) (sign : K) (G₁ : SS σ₁ (Fin m) (Fin p) K)
+    (G₂ : SS σ₂ (Fin p) (Fin m) K) (E : Matrix (Fin m) (Fin m) K)
+    (hE : E * (1 - sign • (G₂.D * G₁.D)) = 1) :
+    ((wiringOf (m + p) (p + m) m p (eyeEntries 0 p m sign ++ eyeEntries m 0 p 1)
+        (eyeEntries 0 0 m 1) (eyeEntries 0 0 p 1)).reindex finSumFinEquiv finSumFinEquiv
+        (Equiv.refl _) (Equiv.refl _)).linearIC (G₁.append G₂) (Wiring.feedbackE G₁.D G₂.D sign E)
+      = G₁.feedback G₂ sign E := by
+  rw [feedback_wiring]
+  exact linearIC_feedback G₁ G₂ sign E hE
+
+end operators
+
 /-! non-vacuity on a concrete instance: `P` (input `u`, output `y`), `C` (inputs `e0`, `e1`,
 output `v`) — the failing input of the unrepaired code. -/
 def sigsPC : List SysSig :=
@@ -600,6 +894,34 @@ example : ∀ S ∈ sigsPC, S.name ≠ "Q" := by decide
 example : sysIndex sigsPC (.name "C") = .ok 1 := by decide
 
 example : lookup [⟨"e0", none⟩, ⟨"e1", none⟩] "e1" = some 1 := by decide
+
+/-! non-vacuity for Part 4: a 1-input / 2-output pair (the sum keeps both outputs), a 2-input /
+1-output pair, a size mismatch, a series and a feedback form. -/
+def sig12 (n : String) : SysSig := ⟨n, [⟨"u", none⟩], [⟨"y[0]", some ("y", 0)⟩, ⟨"y[1]", some ("y", 1)⟩]⟩
+
+def sig21 (n : String) : SysSig := ⟨n, [⟨"u[0]", some ("u", 0)⟩, ⟨"u[1]", some ("u", 1)⟩], [⟨"y", none⟩]⟩
+
+example : opAdd (K := ℚ) (sig12 "f") (sig12 "g")
+    = .ok ⟨2, 4, 1, 2, [], [(0, 0, 1), (1, 0, 1)], [(0, 0, 1), (0, 2, 1), (1, 1, 1), (1, 3, 1)]⟩ := by
+  decide +kernel
+
+example : opSub (K := ℚ) (sig21 "f") (sig21 "g")
+    = .ok ⟨4, 2, 2, 1, [], [(0, 0, 1), (2, 0, 1), (1, 1, 1), (3, 1, 1)], [(0, 0, 1), (0, 1, -1)]⟩ := by
+  decide +kernel
+
+example : opAdd (K := ℚ) (sig12 "f") (sig21 "g") = .error .shape := by decide +kernel
+
+example : opSeries (K := ℚ) (sig12 "f") (sig21 "g")
+    = .ok ⟨3, 3, 1, 1, [(1, 0, 1), (2, 1, 1)], [(0, 0, 1)], [(0, 2, 1)]⟩ := by decide +kernel
+
+example : opFeedback (K := ℚ) (sig12 "f") (sig21 "g") (-1)
+    = .ok ⟨3, 3, 1, 2, [(0, 2, -1), (1, 0, 1), (2, 1, 1)], [(0, 0, 1)], [(0, 0, 1), (1, 1, 1)]⟩ := by
+  decide +kernel
+
+example : opNeg (K := ℚ) (sig12 "f") = .ok ⟨1, 2, 1, 2, [], [(0, 0, 1)], [(0, 0, -1), (1, 1, -1)]⟩ := by
+  decide +kernel
+
+example : (sig12 "f").nin = 1 ∧ (sig12 "f").nout = 2 := by decide
 
 /-- a feedthrough chain `u₀ → u₁ → u₂` meets the hypotheses of `staticIO_complete`. -/
 example : ∀ i j : Fin 3, (!![0, 0, 0; 2, 0, 0; 0, -1, 0] : Matrix (Fin 3) (Fin 3) ℚ) i j ≠ 0 →
